@@ -1,4 +1,5 @@
 import LlirModel.Types
+import LlirModel.TyParse
 import LlirModel.Drv.Util
 /-! Compact type descriptors of the line protocol and the type ops. -/
 namespace Llir.Drv
@@ -91,6 +92,7 @@ def typeOps (op : String) (a : List String) : Option String :=
   | "ty.laws", [_, _, _] => some "ok"
   | "ty.inj", [_, _] => some "ok"
   | "ty.rt", [_] => some "ok"
+  | "ty.parse", [x] => some (match TyParse.parse (argHex x) with | some t => outHex (tyString t) | none => "error")
   | _, _ => none
 
 end Llir.Drv
